@@ -174,23 +174,13 @@ theorem protocolRecv_total (prefixes : List Bytes) (d : Bytes) (loc : Option Add
 
 /-! ### metadata is always there: `headers["_host"]` cannot raise KeyError -/
 
-theorem headersOf_nodup (pairs : List (Bytes × Bytes)) (udn : Option Bytes) (a0 : Addr) :
-    (keys (PyDict.merge (mdToDict pairs) (extras pairs udn a0))).Nodup :=
-  nodup_keys_merge _ _ (nodup_keys_ofList _)
-
 theorem host_present (pairs : List (Bytes × Bytes)) (udn : Option Bytes) (loc : Option Addr) (src : Addr) (now : Int) :
     (getitem lower (combineLower (headersOf pairs udn (withoutPort src)) (callMeta now loc src)) kHost).isSome := by
-  unfold headersOf
-  rw [getitem_decoded _ (headersOf_nodup pairs udn _) now loc src kHost]
-  have hk : kHost ∈ keys (PyDict.merge (mdToDict pairs) (extras pairs udn (withoutPort src))) := by
-    rw [mem_keys_merge]; right; rw [extras_eq]; simp [keys]
-  obtain ⟨p, hp, e⟩ := List.mem_map.mp hk
-  have : (lastCI (PyDict.merge (mdToDict pairs) (extras pairs udn (withoutPort src))) (lower kHost)).isSome := by
-    unfold lastCI
-    rw [Option.isSome_map]
-    rw [List.find?_isSome]
-    exact ⟨p, by simpa using hp, by simp [e]⟩
-  cases h1 : get? (callMeta now loc src) (lower kHost) <;> simp [this]
+  rw [headers_get]
+  have : get? (extras pairs udn (withoutPort src)) (lower kHost) = some (Val.str (hostString (withoutPort src))) := by
+    rw [extras_eq, key_lower.1]; simp [get?]
+  rw [this]
+  cases get? (callMeta now loc src) (lower kHost) <;> simp
 
 theorem searchClassify_total (targetHost : Bytes) {fx : Fixes} {d : Bytes} {loc : Option Addr} {src : Addr} {now : Int}
     {rl : Bytes} {h : Hdrs} (hd : decodeX fx d loc src now = .ok (rl, h)) :
@@ -219,26 +209,35 @@ theorem maxAgeUs_total (cc : Bytes) : ∃ n, maxAgeUs Fixes.all cc = .ok n := by
     · exact ⟨_, rfl⟩
     · split <;> exact ⟨_, rfl⟩
 
-theorem validTo_total (h : Hdrs) (now : Int) : ∃ t, validTo Fixes.all h now = .ok t := by
-  unfold validTo
-  obtain ⟨n, hn⟩ := maxAgeUs_total (strOf (getL h "cache-control"))
+theorem validToCc_total (cc : Bytes) (now : Int) : ∃ t, validToCc Fixes.all cc now = .ok t := by
+  unfold validToCc
+  obtain ⟨n, hn⟩ := maxAgeUs_total cc
   rw [hn]
   dsimp only
   split
   · exact ⟨dtMax, by simp [Fixes.all]⟩
   · exact ⟨_, rfl⟩
 
-theorem seeDevice_total (t : Tracker) (h : Hdrs) : ∃ r, seeDevice Fixes.all t h = .ok r := by
-  unfold seeDevice
-  dsimp only
-  split
-  · exact ⟨_, rfl⟩
-  · obtain ⟨vt, hv⟩ := validTo_total h (nowOf h)
-    rw [hv]; exact ⟨_, rfl⟩
+theorem validTo_total (h : Hdrs) (now : Int) : ∃ t, validTo Fixes.all h now = .ok t :=
+  validToCc_total _ now
 
-theorem seeDevice_none (t : Tracker) (h : Hdrs) (hu : usnUdn h = none) : seeDevice Fixes.all t h = .ok (t, none) := by
-  unfold seeDevice
-  simp [hu, Fixes.all]
+/-! ### the combined listener is C03's step (possibly on a message whose max-age is saturated) -/
+
+/-- the repaired listener never raises: it IS the tracker model's step on the parsed event -/
+theorem listenerStep_spec (trk : C03.Cfg) (sockA : Bool) (t : Tracker) (h : Hdrs) :
+    listenerStep Fixes.all trk sockA t h
+      = .ok (C03.step ipv (C03.Parse.skipHdr trk) t (C03.Parse.parseEv trk sockA (pairsOf h))) := by
+  unfold listenerStep
+  dsimp only
+  cases C03.Parse.parseEv trk sockA (pairsOf h) with
+  | msg m =>
+    dsimp only
+    by_cases hc : reachesValidTo m = true
+    · obtain ⟨vt, hv⟩ := validTo_total h m.ts
+      simp only [hc, if_true, hv]
+    · simp only [hc, Bool.false_eq_true, if_false]
+  | purge n => rfl
+  | noise n => rfl
 
 theorem respond_total (delay : Int) (count : Nat) : ∃ e, respond Fixes.all delay count = .ok e := by
   unfold respond
@@ -255,7 +254,7 @@ theorem responder_total (cfg : Cfg) (rl : Bytes) (h : Hdrs) : ∃ e, responder F
   · exact ⟨_, rfl⟩
   · exact respond_total _ _
 
-/-! ### the C02 decoder is the C01 decoder; the clock only reaches `_timestamp` -/
+/-! ### the C02 decoder is the C01 decoder -/
 
 theorem decodeX_all_eq (d : Bytes) (loc : Option Addr) (src : Addr) (now : Int) :
     decodeX Fixes.all d loc src now = decode d loc src now := by
@@ -271,82 +270,5 @@ theorem decodeX_all_eq (d : Bytes) (loc : Option Addr) (src : Addr) (now : Int) 
       · cases he
       · rw [urlRaises_all] at he; cases he
     · rfl
-
-/-- two header maps that agree on every lower-case name except `_timestamp` -/
-def SameBut (h1 h2 : Hdrs) : Prop :=
-  ∀ lk, lower lk = lk → lk ≠ kTimestamp → CIDict.getLower h1 lk = CIDict.getLower h2 lk
-
-theorem callMeta_get?_now (now now' : Int) (loc : Option Addr) (src : Addr) (lk : Bytes) (h : lk ≠ kTimestamp) :
-    get? (callMeta now loc src) lk = get? (callMeta now' loc src) lk := by
-  simp [callMeta, get?, Ne.symm h]
-
-theorem sameBut_decoded (pairs : List (Bytes × Bytes)) (udn : Option Bytes) (loc : Option Addr) (src : Addr) (now now' : Int) :
-    SameBut (combineLower (headersOf pairs udn (withoutPort src)) (callMeta now loc src))
-            (combineLower (headersOf pairs udn (withoutPort src)) (callMeta now' loc src)) := by
-  intro lk hl hne
-  have e : ∀ n, CIDict.getLower (combineLower (headersOf pairs udn (withoutPort src)) (callMeta n loc src)) lk
-      = getitem lower (combineLower (headersOf pairs udn (withoutPort src)) (callMeta n loc src)) lk := by
-    intro n; unfold getitem CIDict.getLower; rw [hl]
-  rw [e now, e now']
-  unfold headersOf
-  rw [getitem_decoded _ (headersOf_nodup pairs udn _) now loc src lk,
-    getitem_decoded _ (headersOf_nodup pairs udn _) now' loc src lk, hl,
-    callMeta_get?_now now now' loc src lk hne]
-
-theorem getL_same {h1 h2 : Hdrs} (hs : SameBut h1 h2) (k : String) (hl : lower (ofString k) = ofString k)
-    (hne : ofString k ≠ kTimestamp) : getL h1 k = getL h2 k := hs _ hl hne
-
-theorem classifiers_same {h1 h2 : Hdrs} (hs : SameBut h1 h2) :
-    advClassify h1 = advClassify h2 ∧ validSearch h1 = validSearch h2 ∧ validAdv h1 = validAdv h2
-    ∧ validByebye h1 = validByebye h2 ∧ usnUdn h1 = usnUdn h2 ∧ (∀ rl, isSearch rl h1 = isSearch rl h2)
-    ∧ (∀ cfg, responseCount cfg h1 = responseCount cfg h2) ∧ (∀ th, searchClassify th h1 = searchClassify th h2) := by
-  have man := getL_same hs "man" (by decide) (by decide)
-  have nts := getL_same hs "nts" (by decide) (by decide)
-  have nt := getL_same hs "nt" (by decide) (by decide)
-  have st := getL_same hs "st" (by decide) (by decide)
-  have usn := getL_same hs "usn" (by decide) (by decide)
-  have udn := getL_same hs "_udn" (by decide) (by decide)
-  have locn := getL_same hs "location" (by decide) (by decide)
-  have host : getitem lower h1 kHost = getitem lower h2 kHost := by
-    unfold getitem
-    exact hs (lower kHost) (by decide) (by decide)
-  refine ⟨?_, ?_, ?_, ?_, ?_, ?_, ?_, ?_⟩
-  · unfold advClassify; rw [man, nts]
-  · unfold validSearch locationOk; rw [udn, st, locn]
-  · unfold validAdv locationOk; rw [udn, nt, nts, locn]
-  · unfold validByebye; rw [udn, nt, nts]
-  · unfold usnUdn; rw [usn]
-  · intro rl; unfold isSearch; rw [man]
-  · intro cfg; unfold responseCount; rw [st]
-  · intro th; unfold searchClassify; rw [man, nts, host]
-
-/-- what the protocol hands to `on_data` at two clock values: dropped both times, or the same
-    request line with header maps that differ in `_timestamp` only -/
-theorem protocolRecv_now (prefixes : List Bytes) (d : Bytes) (loc : Option Addr) (src : Addr) (now now' : Int) :
-    (protocolRecv Fixes.all prefixes d loc src now = .ok none ∧ protocolRecv Fixes.all prefixes d loc src now' = .ok none)
-    ∨ ∃ rl h h', protocolRecv Fixes.all prefixes d loc src now = .ok (some (rl, h))
-        ∧ protocolRecv Fixes.all prefixes d loc src now' = .ok (some (rl, h')) ∧ SameBut h h' := by
-  unfold protocolRecv
-  by_cases hg : isValidPacket prefixes d = true
-  · simp only [hg, Bool.not_true, Bool.false_eq_true, if_false]
-    unfold decodeX
-    cases hp : headerParse d with
-    | error e =>
-      left
-      have := headerParse_errors (gate_lf hg) hp
-      have hc : caught Fixes.all e = true := by rcases this with rfl | rfl | rfl <;> decide
-      simp [hc]
-    | ok r =>
-      obtain ⟨pairs, rl, udn⟩ := r
-      right
-      dsimp only
-      have hu : (if allPyWs ((mdGet pairs kLocation).getD []) = true then none
-                 else urlRaises Fixes.all ((mdGet pairs kLocation).getD []) (withoutPort src)) = none := by
-        split
-        · rfl
-        · exact urlRaises_all _ _
-      rw [hu]
-      exact ⟨rl, _, _, rfl, rfl, sameBut_decoded pairs udn loc src now now'⟩
-  · left; simp [hg]
 
 end Upnp.C02
